@@ -59,8 +59,9 @@ func (r *Router) Match(method HTTPMethod, path string) (*Route, map[string]strin
 		return nil, nil, fmt.Errorf("no routes registered for method %s", method)
 	}
 
-	// Clean the path
-	path = strings.TrimSpace(path)
+	// The request path is matched as received: trimming whitespace here would
+	// bind a parameter to "a" for the segment "a%20", while the handlers see
+	// the untrimmed path.
 	if !strings.HasPrefix(path, "/") {
 		path = "/" + path
 	}
